@@ -109,6 +109,15 @@ def mainline_len(P, k):
     return c
 
 
+def mainline_has_ghost(P, k):
+    """Does the left-hand history of k end in a ghost (so that the revision has no revno)?"""
+    while P[k - 1]:
+        if P[k - 1][0] == GHOST:
+            return True
+        k = P[k - 1][0]
+    return False
+
+
 def _move_pointer(bb, revno, revid):
     if bb._branch.last_revision() == revid:
         return
@@ -131,21 +140,25 @@ def sha(b):
     return hashlib.sha1(b).hexdigest()[:16]
 
 
-def check_text(repo):
-    """'ok' or what Repository.check() found wrong."""
+def check_problems(repo):
+    """What Repository.check() found wrong: a list of 'kind: item' strings (empty = consistent)."""
     try:
         res = repo.check()
     except Exception as e:            # BzrCheckError and friends: the check could not even run to the end
-        return "check raised %s: %s" % (type(e).__name__, str(e)[:120])
+        return ["raised: %s %s" % (type(e).__name__, str(e)[:120])]
     probs = []
     for attr in ("missing_inventory_sha_cnt", "missing_revision_cnt"):
         if getattr(res, attr, 0):
-            probs.append("%s=%s" % (attr, getattr(res, attr)))
+            probs.append("%s: %s" % (attr, getattr(res, attr)))
     for attr in ("missing_parent_links", "inconsistent_parents", "revs_with_bad_parents_in_index", "unreferenced_versions"):
-        v = getattr(res, attr, None)
-        if v:
-            probs.append("%s: %s" % (attr, sorted(str(x) for x in v)[:3]))
-    return "; ".join(probs) or "ok"
+        for x in sorted(str(x) for x in (getattr(res, attr, None) or ())):
+            probs.append("%s: %s" % (attr, x))
+    return probs
+
+
+def check_text(repo):
+    """'ok' or what Repository.check() found wrong."""
+    return "; ".join(check_problems(repo)[:4]) or "ok"
 
 
 def text_keys(vf):
